@@ -982,6 +982,7 @@ func (x *otrans) moveIfObject(v oval, en oenv) {
 
 // dropArg: an argument of a dropped type must be free of effects
 func (x *otrans) dropArg(a ast.Expr, en oenv) {
+	covSkip(covNS(x.u.Namespace)+"."+x.t.Lean, a, "dropped argument")
 	ok := true
 	ast.Inspect(a, func(n ast.Node) bool {
 		switch n := n.(type) {
@@ -1394,6 +1395,8 @@ func (x *otrans) call(e *ast.CallExpr, en oenv) (oval, *oeffect) {
 // callT: targets = the left-hand sides of the assignment the call is the right-hand side of
 func (x *otrans) callT(e *ast.CallExpr, en oenv, targets []ast.Expr) (oval, *oeffect) {
 	if spec, ok := x.u.EnvConsts[norm(src(e))]; ok {
+		covPat(covNS(x.u.Namespace), "EnvConsts: "+norm(src(e)))
+		covSkip(covNS(x.u.Namespace)+"."+x.t.Lean, e, "EnvConsts (call replaced by a constant)")
 		// a call whose value does not depend on the state (checked by the reader of the table): an env constant
 		parts := strings.SplitN(spec, ":", 2)
 		x.envFn(parts[0], x.ti(parts[1]).Lean, "`"+norm(src(e))+"`, a constant")
